@@ -68,11 +68,9 @@ func ExtractTypeNameMap(v interface{}) (map[string]reflect.Type, map[string]stri
 		typMap[name] = typ
 		nameMap[name] = name
 
-		if v.CanInterface() {
-			if n, ok := v.Interface().(CodecNamable); ok && !promotedCodecName(v, n.HessianCodecName()) {
-				nameMap[name] = n.HessianCodecName()
-				typMap[n.HessianCodecName()] = typ
-			}
+		if codecName, ok := ownCodecName(v); ok {
+			nameMap[name] = codecName
+			typMap[codecName] = typ
 		}
 		return true
 	})
@@ -98,6 +96,38 @@ func ExtractTypeNameMap(v interface{}) (map[string]reflect.Type, map[string]stri
 	}
 
 	return typMap, nameMap
+}
+
+// ownCodecName returns the codec name a value declares for itself. The method
+// is asked on a copy whose nil embedded pointers are filled in: a struct that
+// embeds a nil *T inherits T's HessianCodecName, and calling the promoted
+// method through the nil pointer would panic.
+func ownCodecName(v reflect.Value) (string, bool) {
+	if !v.CanInterface() {
+		return "", false
+	}
+	if _, ok := v.Interface().(CodecNamable); !ok {
+		return "", false
+	}
+	if v.Kind() == reflect.Struct {
+		filled := reflect.New(v.Type()).Elem()
+		filled.Set(v)
+		for i := 0; i < filled.NumField(); i++ {
+			f := filled.Field(i)
+			if v.Type().Field(i).Anonymous && f.Kind() == reflect.Ptr && f.IsNil() {
+				if !f.CanSet() {
+					return "", false
+				}
+				f.Set(reflect.New(f.Type().Elem()))
+			}
+		}
+		v = filled
+	}
+	codecName := v.Interface().(CodecNamable).HessianCodecName()
+	if promotedCodecName(v, codecName) {
+		return "", false
+	}
+	return codecName, true
 }
 
 // promotedCodecName reports whether the codec name of a struct value is the
